@@ -54,6 +54,11 @@ CLAIMED = {
    text="Type level: all 522 types of the universe are built 12+ times each through constructors and Type::from_str with rotated member/field orders; equal instances must compare equal, hash alike (HashSet of them has one element, T | T' = T), match each other and answer all 22 queries as the set-based specification does. Program level: generated programs, the iterator suite and hand-written union/struct programs are parsed and run from scratch K times in each of three processes; every run's canonical outcome (accepted?, static type, value or error, log) is one event of the trace specification, which accepts a run only if it repeats the outcome first seen for that program.",
    design_ref="§3.1, §6 C05",
    note="a 2-way order dependence escapes detection with probability 2^-(3K-1) per program; only printed order may vary (outcomes are canonicalised by sorting union members and struct fields)"),
+ "C17": dict(
+   technique="the embedding API as a TLA+ state machine over Lang.tla's abstract machine (MC_C17.tla): TLC explores every REPL state reachable by feeding every session in every split and checks ReplEqualsBatch / FailuresAgree as invariants; sessions, prefixes and host calls with the specification's answers replayed through Code::parse, exec_unscoped, exec and Function::create_call",
+   text="State = host interpreter bindings, heap, position; action Feed(k) = one REPL input of k statements. Invariants: after p statements the REPL state equals the batch run of the first p statements (last result and all top-level values) whenever both completed, and failures agree. The harness feeds all 1 884 sessions (<= 3 statements from a pool with constants, hidden values, cells, closures, re-declaration, functions, a failing input) in all splits to the real API, compares every prefix on both routes and against the specification, checks that exec() leaves the interpreter's bindings untouched and is repeatable, and that create_call accepts exactly the argument vectors the specification's rule (arity, tag matches parameter) and an in-language call accept, with equal results.",
+   design_ref="§3.7, §6 C17",
+   note="sessions bounded by MaxLen (3 quick / 4 thorough) over a 12-statement pool; 7 functions x 25 argument vectors for host calls"),
 }
 
 NOT_YET = {}
